@@ -513,6 +513,8 @@ def write_meta_data(md, md_file):
             if isinstance(val, float):
                 if val.is_integer():
                     val = int(val)
+                else:  # never exponent notation, which read_meta_data would keep as a string
+                    val = np.format_float_positional(val, trim="-")
             fid.write(f"{key}={val}\n")
 
 
